@@ -4,7 +4,7 @@
    src/neighbors/*.rs.  Distances live in any type with a total preorder (`preorder ltb leb`). *)
 From Coq Require Import List Arith Bool Permutation Lia Reals Lra ZArith.
 From SC Require Import Base.Num C04.Model C04.ModelBuild C04.Proofs_Heap C04.Proofs_Linear C04.Proofs_Cover C04.Proofs_Est
-     C04.ProofsBuild C04.ProofsKnn.
+     C04.ProofsBuild C04.ProofsKnn C04.ProofsLabels C04.ProofsClassifier C04.ProofsNearest C04.ProofsIndep.
 Import ListNotations.
 Local Close Scope R_scope.
 
@@ -368,4 +368,203 @@ Example C04_fitted_instances :
   fitted (fun a b : R => Rabs (a - b)) (fun i => INR i) (-10)%Z up C04_Rradius (SCover 1 (Node 0 0%R [Node 0 0%R []])) 1.
 Proof.
   split; [reflexivity|]. split; [reflexivity|]. exists 1. cbn. rewrite Z.eqb_refl. reflexivity.
+Qed.
+
+(* KNNClassifier::fit's label mapping (`classes = y.unique()`: sort_by(partial_cmp) + dedup; `y[i] =
+   classes.iter().position(|c| yc == *c)`; model: insert_label / dedup / unique / position), for ARBITRARY label
+   lists over every element type whose `<` is a strict total order and whose `==` decides equality
+   (`label_order`; the reals are an instance, C04_R_label_order): the class list is strictly increasing, it has
+   exactly the values of the label vector, every label is found at a position in range that holds that label
+   (round trip label -> index -> label), and every class index is the position of its own label (round trip
+   index -> label -> index); so position / nth are mutually inverse bijections between the distinct labels
+   and 0..|classes|-1.  (`position` returns |classes| where Rust's unwrap() would panic; the third clause
+   says that this never happens for a training label.) *)
+Theorem C04_classes_sorted_unique :
+  forall (T : Type) (O : Ops T), label_order O -> forall (d : T) (ys : list T),
+  let cl := unique O ys in
+  (forall i j, i < j < length cl -> oltb O (nth i cl d) (nth j cl d) = true) /\
+  (forall x, In x cl <-> In x ys) /\
+  (forall y, In y ys -> position O y cl < length cl /\ nth (position O y cl) cl d = y) /\
+  (forall i, i < length cl -> position O (nth i cl d) cl = i).
+Proof. intros T O LO. exact (classes_sorted_unique O LO). Qed.
+
+(* The classifier END TO END in terms of the ORIGINAL labels (over the reals; one query row): fit maps the label
+   vector ys (one label per training row) to `classes` / class indices as above, and whichever search structure
+   was fitted, for every metric, 1 <= k <= n and both weight functions there is a k-nearest set sr of the
+   training rows (with weights ws, total W > 0, L = the neighbours paired with their weights in the order the
+   search returned them) such that the prediction succeeds and the predicted value lbl
+   - is the training label of one of the k neighbours in sr - in particular an element of ys, never a
+     default or an out-of-range class -,
+   - has positive total weight lscore ys W L lbl (= the sum of w/W over the neighbours labelled lbl) and that
+     weight is MAXIMAL among all labels (for all reals `lab`, labels not occurring score 0), and
+   - on ties is the label whose running total reached the maximum FIRST in the order of the search result:
+     L splits as l1 ++ l2 with lbl already at its final total after l1 while every other label is then still
+     strictly below that total (this determines lbl uniquely given L).
+   NOT "the first maximal index in class order": `if c[y] > max_c` is strict and runs over the neighbours, not
+   over the classes - see C04_classifier_tie_first_index_refuted. *)
+Theorem C04_classifier_predicts_original_label :
+  forall (P : Type) (dist : P -> P -> R) (pt : nat -> P) (q : P),
+  (forall a b, dist a b = dist b a) -> (forall a b c, (dist a c <= dist a b + dist b c)%R) ->
+  (forall a b, (0 <= dist a b)%R) -> (forall a, dist a a = 0%R) ->
+  forall (smin : Z) (gsp : R -> Z) (radius : Z -> R) (slo : Z), scale_ok Rltb Rleb 0%R smin gsp radius slo ->
+  forall (dmax dinf : R) (s : searcher) n k (ys : list R) (w : weightfn),
+  fitted dist pt smin gsp radius s n -> 1 <= k <= n -> length ys = n ->
+  (forall i, i < n -> (dq dist pt q i < dinf)%R) -> (forall i, i < n -> (dq dist pt q i <= dmax)%R) ->
+  exists sr, is_knn Rleb (dq dist pt q) n k sr /\
+    let ws := calc_weights ROps w (map snd sr) in
+    let W := rsum ws in
+    let L := combine sr ws in
+    exists lbl,
+      clf_predict_row ROps dmax dinf s (unique ROps ys) (map (fun l => position ROps l (unique ROps ys)) ys)
+                      w k (dq dist pt q) = Some lbl /\
+      (exists r, In r sr /\ nth (fst r) ys 0%R = lbl) /\ In lbl ys /\
+      (0 < lscore ys W L lbl)%R /\
+      (forall lab, (lscore ys W L lab <= lscore ys W L lbl)%R) /\
+      exists l1 l2, L = l1 ++ l2 /\ lscore ys W l1 lbl = lscore ys W L lbl /\
+                    forall lab, lab <> lbl -> (lscore ys W l1 lab < lscore ys W L lbl)%R.
+Proof.
+  intros P dist pt q SY TR NN RF smin gsp radius slo SC dmax dinf s n k ys w.
+  exact (knn_classifier_predicts_original_label dist pt q SY TR NN RF smin gsp radius slo SC dmax dinf s n k ys w).
+Qed.
+
+(* the same facts about the vote alone (any neighbour list with in-range class indices, non-negative distances
+   and positive total weight), by class index: the predicted index is in range, its tally is positive and
+   maximal, and it is the class whose running tally reached the maximum first *)
+Theorem C04_knn_classifier_vote_first_max : forall ncl (y : list nat) (w : weightfn) (sr : list (nat * R)),
+  let ws := calc_weights ROps w (map snd sr) in
+  let W := rsum ws in
+  let L := combine sr ws in
+  let c := clf_vote ROps ncl y w sr in
+  (forall r, In r sr -> nth (fst r) y 0 < ncl) -> (forall r, In r sr -> (0 <= snd r)%R) -> (0 < W)%R ->
+  c < ncl /\ (0 < score y W L c)%R /\
+  (forall j, (score y W L j <= score y W L c)%R) /\
+  exists l1 l2, L = l1 ++ l2 /\ score y W l1 c = score y W L c /\
+                forall j, j <> c -> (score y W l1 j < score y W L c)%R.
+Proof. exact clf_vote_first_max. Qed.
+
+(* REFUTED tie rule "the first maximal index in class order wins": labels [2; 1; 2] (classes [1; 2]), two
+   neighbours of equal weight, the first one labelled 2: the prediction is 2 although label 1 (class index 0)
+   has the same total weight.  Not a defect - the property asks for a plurality class - but the tie rule is
+   the one stated in C04_classifier_predicts_original_label, and it depends on the order of the search result.
+   Observed on the implementation (not part of the check): x = [-1; 1], y = [1; 2], query 0, k = 2, uniform
+   weights: KNNClassifier with LinearSearch predicts 2, with CoverTree 1; with y = [2; 1] it is 1 resp. 2. *)
+Theorem C04_classifier_tie_first_index_refuted :
+  exists (ys : list R) (sr : list (nat * R)),
+  let ws := calc_weights ROps Uniform (map snd sr) in
+  let W := rsum ws in
+  nth (clf_vote ROps (length (unique ROps ys)) (map (fun l => position ROps l (unique ROps ys)) ys) Uniform sr)
+      (unique ROps ys) 0%R = 2%R /\
+  lscore ys W (combine sr ws) 1%R = lscore ys W (combine sr ws) 2%R /\ (1 < 2)%R.
+Proof. exists [2; 1; 2]%R, [(0, 1%R); (1, 1%R)]. exact clf_tie_goes_to_first_reached. Qed.
+
+(* the hypotheses are satisfiable: the reals are a label order; a concrete label mapping *)
+Example C04_R_label_order : label_order ROps.
+Proof. exact R_label_order. Qed.
+Example C04_fit_instance :
+  unique ROps [2; 1; 2]%R = [1; 2]%R /\
+  map (fun l => position ROps l (unique ROps [2; 1; 2]%R)) [2; 1; 2]%R = [1; 0; 1].
+Proof. exact fit_example. Qed.
+
+(* k = 1 (over the reals, one query row, both searches, both weight functions): KNNRegressor's and
+   KNNClassifier's predict_for_row return the target resp. the ORIGINAL label of a nearest training row i
+   (dq i <= dq j for all rows j).  (KNNClassifier::fit refuses k = 1, C04_knn_param_errors; the statement is
+   about the predict function with the label mapping of fit.) *)
+Theorem C04_knn_k1_nearest :
+  forall (P : Type) (dist : P -> P -> R) (pt : nat -> P) (q : P),
+  (forall a b, dist a b = dist b a) -> (forall a b c, (dist a c <= dist a b + dist b c)%R) ->
+  (forall a b, (0 <= dist a b)%R) -> (forall a, dist a a = 0%R) ->
+  forall (smin : Z) (gsp : R -> Z) (radius : Z -> R) (slo : Z), scale_ok Rltb Rleb 0%R smin gsp radius slo ->
+  forall (dmax dinf : R) (s : searcher) n (y ys : list R) (w : weightfn),
+  fitted dist pt smin gsp radius s n -> 1 <= n -> length ys = n ->
+  (forall i, i < n -> (dq dist pt q i < dinf)%R) -> (forall i, i < n -> (dq dist pt q i <= dmax)%R) ->
+  exists i, i < n /\ (forall j, j < n -> (dq dist pt q i <= dq dist pt q j)%R) /\
+    reg_predict_row ROps dmax dinf s y w 1 (dq dist pt q) = Some (nth i y 0%R) /\
+    clf_predict_row ROps dmax dinf s (unique ROps ys) (map (fun l => position ROps l (unique ROps ys)) ys)
+                    w 1 (dq dist pt q) = Some (nth i ys 0%R).
+Proof.
+  intros P dist pt q SY TR NN RF smin gsp radius slo SC dmax dinf s n y ys w.
+  exact (knn_k1_nearest dist pt q SY TR NN RF smin gsp radius slo SC dmax dinf s n y ys w).
+Qed.
+
+(* exact match under distance weighting (any 1 <= k <= n, both searches): if the query is at distance 0 from
+   some training rows and all such rows carry the target v and the label lv, the regressor returns v and the
+   classifier lv - the zero-distance neighbours take all the weight.  In particular an in-sample query on
+   data without conflicting duplicates reproduces its own target / label. *)
+Theorem C04_knn_exact_match :
+  forall (P : Type) (dist : P -> P -> R) (pt : nat -> P) (q : P),
+  (forall a b, dist a b = dist b a) -> (forall a b c, (dist a c <= dist a b + dist b c)%R) ->
+  (forall a b, (0 <= dist a b)%R) -> (forall a, dist a a = 0%R) ->
+  forall (smin : Z) (gsp : R -> Z) (radius : Z -> R) (slo : Z), scale_ok Rltb Rleb 0%R smin gsp radius slo ->
+  forall (dmax dinf : R) (s : searcher) n k (y ys : list R) (v lv : R),
+  fitted dist pt smin gsp radius s n -> 1 <= k <= n -> length ys = n ->
+  (forall i, i < n -> (dq dist pt q i < dinf)%R) -> (forall i, i < n -> (dq dist pt q i <= dmax)%R) ->
+  (exists i0, i0 < n /\ dq dist pt q i0 = 0%R) ->
+  (forall j, j < n -> dq dist pt q j = 0%R -> nth j y 0%R = v /\ nth j ys 0%R = lv) ->
+  reg_predict_row ROps dmax dinf s y DistanceW k (dq dist pt q) = Some v /\
+  clf_predict_row ROps dmax dinf s (unique ROps ys) (map (fun l => position ROps l (unique ROps ys)) ys)
+                  DistanceW k (dq dist pt q) = Some lv.
+Proof.
+  intros P dist pt q SY TR NN RF smin gsp radius slo SC dmax dinf s n k y ys v lv.
+  exact (knn_exact_match dist pt q SY TR NN RF smin gsp radius slo SC dmax dinf s n k y ys v lv).
+Qed.
+
+(* satisfiable: on the line with |a - b| and points 0, 1, 2, ... the query 2 is at distance 0 from row 2 only,
+   so any target / label vectors meet the agreement hypothesis *)
+Example C04_exact_match_instance :
+  dq (fun a b : R => Rabs (a - b)) (fun i => INR i) 2%R 2 = 0%R /\
+  forall (y ys : list R) j, dq (fun a b : R => Rabs (a - b)) (fun i => INR i) 2%R j = 0%R ->
+                            nth j y 0%R = nth 2 y 0%R /\ nth j ys 0%R = nth 2 ys 0%R.
+Proof.
+  unfold dq. split.
+  - simpl. replace (1 + 1 - 2)%R with 0%R by lra. apply Rabs_R0.
+  - intros y ys j H. assert (E : INR j = INR 2).
+    { simpl. destruct (Req_dec (INR j - 2) 0) as [Q|Q]; [lra|]. apply Rabs_no_R0 in Q. contradiction. }
+    apply INR_eq in E. subst j. split; reflexivity.
+Qed.
+
+(* "whichever search structure is configured": two estimators fitted on the same n training rows with ANY two
+   search structures (exhaustive scan / built cover tree, in any combination), a query whose distances to the
+   training rows are pairwise distinct (so that the k-nearest SET is unique; with ties at the k-th distance
+   two exact searches may legitimately return different sets): there is one k-nearest set sr such that
+   - the two regressors return the SAME value, and
+   - the two classifier predictions l1, l2 are both labels of maximal total weight over sr; if l1's weight is
+     strictly maximal they are EQUAL (they can differ only when two labels tie exactly, because the vote
+     breaks ties by the order of the search result, C04_classifier_predicts_original_label). *)
+Theorem C04_knn_search_independent :
+  forall (P : Type) (dist : P -> P -> R) (pt : nat -> P) (q : P),
+  (forall a b, dist a b = dist b a) -> (forall a b c, (dist a c <= dist a b + dist b c)%R) ->
+  (forall a b, (0 <= dist a b)%R) -> (forall a, dist a a = 0%R) ->
+  forall (smin : Z) (gsp : R -> Z) (radius : Z -> R) (slo : Z), scale_ok Rltb Rleb 0%R smin gsp radius slo ->
+  forall (dmax dinf : R) (s1 s2 : searcher) n k (y ys : list R) (w : weightfn),
+  fitted dist pt smin gsp radius s1 n -> fitted dist pt smin gsp radius s2 n ->
+  1 <= k <= n -> length ys = n ->
+  (forall i, i < n -> (dq dist pt q i < dinf)%R) -> (forall i, i < n -> (dq dist pt q i <= dmax)%R) ->
+  (forall i j, i < n -> j < n -> i <> j -> dq dist pt q i <> dq dist pt q j) ->
+  exists sr, is_knn Rleb (dq dist pt q) n k sr /\
+    let ws := calc_weights ROps w (map snd sr) in
+    let W := rsum ws in
+    let L := combine sr ws in
+    (exists p, reg_predict_row ROps dmax dinf s1 y w k (dq dist pt q) = Some p /\
+               reg_predict_row ROps dmax dinf s2 y w k (dq dist pt q) = Some p) /\
+    exists l1 l2,
+      clf_predict_row ROps dmax dinf s1 (unique ROps ys) (map (fun l => position ROps l (unique ROps ys)) ys)
+                      w k (dq dist pt q) = Some l1 /\
+      clf_predict_row ROps dmax dinf s2 (unique ROps ys) (map (fun l => position ROps l (unique ROps ys)) ys)
+                      w k (dq dist pt q) = Some l2 /\
+      (forall lab, (lscore ys W L lab <= lscore ys W L l1)%R) /\
+      (forall lab, (lscore ys W L lab <= lscore ys W L l2)%R) /\
+      ((forall lab, lab <> l1 -> (lscore ys W L lab < lscore ys W L l1)%R) -> l2 = l1).
+Proof.
+  intros P dist pt q SY TR NN RF smin gsp radius slo SC dmax dinf s1 s2 n k y ys w.
+  exact (knn_search_independent dist pt q SY TR NN RF smin gsp radius slo SC dmax dinf s1 s2 n k y ys w).
+Qed.
+
+(* satisfiable: from the query -1 the points 0, 1, 2, ... of the line are at pairwise distinct distances *)
+Example C04_distinct_distances_instance :
+  forall i j, i <> j -> dq (fun a b : R => Rabs (a - b)) (fun i => INR i) (-1)%R i <>
+                        dq (fun a b : R => Rabs (a - b)) (fun i => INR i) (-1)%R j.
+Proof.
+  intros i j Hne H. unfold dq in H.
+  pose proof (pos_INR i). pose proof (pos_INR j).
+  rewrite !Rabs_pos_eq in H by lra. apply Hne. apply INR_eq. lra.
 Qed.
